@@ -6,6 +6,11 @@ ALL = ["C%02d" % i for i in range(1, 21)]
 
 # id -> (level category, engine, technique, level text, level note, design ref)
 CLAIMED = {
+ "C12": ("fault_enumeration", "E4 deviation-bounded fault enumeration over node callbacks",
+         "exhaustive enumeration of fault positions: for each edit scenario every single callback position (thorough: every pair) is made to fail on the real editor; begin/end pairing, recipients, error wrapping and absence of later writes checked on every run",
+         "27 scenarios (upsert/insert/update x From/Into x root/container/list/entry/nested entry points x new and existing containers, list entries, nested lists, choice switches that clear leaves, containers and lists, Delete of container/entry/list/nested entry, ReplaceFrom) run over recording wrappers on source and target. Run 0 numbers all callbacks; run k fails exactly callback k with a unique sentinel for every k (quick), and every pair k1<k2 among the calls still made after k1 (thorough). Each run checks: stack-disciplined BeginEdit/EndEdit pairing per node instance with equal flags, notifications only on target nodes inside or above an edit root, errors.Is(API error, sentinel), no write/create/delete after the failing call; the event prefix before the fault must equal run 0.",
+         "trusted: recording wrapper (internal/store/rec.go) and reference store; fault model = one (or two) callbacks returning an error, no panics or hangs inside callbacks",
+         "DESIGN.md section 7 C12"),
  "C16": ("exploration", "E3 value-domain enumeration through generated modules",
          "exhaustive enumeration of the matrix operand type x literal x operator x operand value x placement, each cell executed on the real when/where/filter machinery and compared with the mathematical truth of the comparison",
          "For 13 operand types (all integer widths signed and unsigned, decimal64, string, boolean, enumeration, identityref), 1-3 literals each, all six operators and operand values {unset, literal-1, literal, literal+1, type minimum, type maximum}: a module is generated and loaded, and the condition is exercised as when on a leaf (read and edit), when on a container, when on a list, where= on a list and filter= on a notification stream. Visibility / written-ness / kept entries / delivered events must equal the truth of the comparison computed with math/big, code points, enum name (=, !=) or value (order) and boolean truth; an unset operand must make every comparison false without error or panic. The matrix is finite and enumerated completely; expressions the XPath subset rejects at parse time (negative literals) are skipped and counted.",
